@@ -16,6 +16,7 @@ Space B (E1 product over an in-process socket pair)
 from __future__ import annotations
 
 import collections
+import copy
 import io
 import itertools
 import socket
@@ -49,7 +50,7 @@ RULE = (
 ASSUMPTIONS = [
     "rfile is a blocking buffered reader (socket.makefile('rb')): read(n) is short and readline() unterminated only "
     "at EOF - BytesIO has the same contract; the socket-pair runs use the real makefile",
-    "DechunkedInput's future depends only on (rfile offset, _len, _done) - asserted against vars() every run",
+    "DechunkedInput's future depends only on the rfile offset and its instance attributes (state key and clone are generic over vars())",
     "chunk extensions and trailers are outside the property's domain (either outcome accepted for extensions, "
     "trailers not generated); size lines padded with blanks are accepted either way",
     "one request per connection, client side shut down for writing before the handler runs; no TLS, no keep-alive",
@@ -60,7 +61,6 @@ from werkzeug.serving import DechunkedInput, WSGIRequestHandler  # noqa: E402
 DATA = b"ab\ncd\nef\ngh"
 LONG = b"0123456789\nXYZ"
 FILL = 0xEE
-DI_ATTRS = {"_rfile", "_done", "_len"}
 CPU_GUARD = 1.0          # CPU-seconds one readinto / one wrapper schedule / one request may take (normal: < 1 ms)
 
 # ------------------------------------------------------------------ reference chunked parser
@@ -189,11 +189,39 @@ def frame(body: bytes, comp, nl: bytes, hexf, size_lines=None) -> bytes:
 # ------------------------------------------------------------------ A: DechunkedInput graph
 
 def clone(d, raw):
-    n = DechunkedInput(io.BytesIO(raw))
+    """Attribute-level clone that does not depend on the attribute set: a fresh object over a fresh BytesIO at
+    the same offset, every other attribute copied (mutable containers deep-copied), so a refactoring that adds a
+    field neither aliases state between clones nor breaks the harness.  The only attribute the harness itself
+    reads is _rfile (the underlying file, to position the copy)."""
+    if not hasattr(d, "_rfile") or not hasattr(d._rfile, "tell"):
+        raise core.Broken("DechunkedInput no longer keeps its underlying file in _rfile: the harness cannot clone it")
+    n = DechunkedInput.__new__(DechunkedInput)
+    for k, v in d.__dict__.items():
+        if k == "_rfile":
+            continue
+        if isinstance(v, bytearray):
+            v = bytearray(v)
+        elif isinstance(v, (list, dict, set)):
+            v = copy.deepcopy(v)
+        n.__dict__[k] = v
+    n._rfile = io.BytesIO(raw)
     n._rfile.seek(d._rfile.tell())
-    n._len = d._len
-    n._done = d._done
     return n
+
+
+def di_state_key(d, delivered):
+    """Everything any method can read (generic over vars(d)) + what was delivered."""
+    dyn = []
+    for k in sorted(d.__dict__):
+        if k == "_rfile":
+            continue
+        v = d.__dict__[k]
+        if isinstance(v, bytearray):
+            v = bytes(v)
+        elif isinstance(v, (list, dict, set)):
+            v = repr(v)
+        dyn.append((k, v))
+    return (d._rfile.tell(), tuple(dyn), delivered)
 
 
 def step(d, k):
@@ -226,9 +254,7 @@ def explore_raw(raw: bytes, sizes, R, meta):
     """Complete read-schedule graph of DechunkedInput over `raw`. Returns (states, transitions)."""
     interps = interpretations(raw)
     d0 = DechunkedInput(io.BytesIO(raw))
-    if set(vars(d0)) != DI_ATTRS:
-        raise core.Broken(f"DechunkedInput attributes changed: {sorted(set(vars(d0)) ^ DI_ATTRS)}")
-    seen = {(0, 0, False, b"")}
+    seen = {di_state_key(d0, b"")}
     queue = collections.deque([(d0, b"", ())])
     trans = 0
     while queue:
@@ -262,7 +288,7 @@ def explore_raw(raw: bytes, sizes, R, meta):
                 continue
             if ev == "OSError":
                 continue
-            key = (d2._rfile.tell(), d2._len, d2._done, new)
+            key = di_state_key(d2, new)
             if key not in seen:
                 seen.add(key)
                 queue.append((d2, new, s2))
@@ -521,7 +547,9 @@ def norm_slashes(p: str) -> str:
 
 def build_request(method, target, headers, body_mode, body, comp=None, nl=b"\r\n", hexf="lower", version="HTTP/1.1"):
     lines = [f"{method} {target} {version}".encode("latin-1")]
-    hs = list(headers)
+    # a header whose name starts with "~" is sent AFTER the framing header (Content-Length / Transfer-Encoding)
+    hs = [h for h in headers if not h[0].startswith("~")]
+    late = [(h[0][1:], h[1]) for h in headers if h[0].startswith("~")]
     payload = b""
     # body_mode = "none" | "cl[:<header name spelling>]" | "chunked[:<header name spelling>=<value spelling>]"
     mode, _, spell = body_mode.partition(":")
@@ -532,6 +560,7 @@ def build_request(method, target, headers, body_mode, body, comp=None, nl=b"\r\n
         name, _, val = (spell or "Transfer-Encoding=chunked").partition("=")
         hs.append((name, val))
         payload = frame(body, comp, nl, hexf)
+    hs += late
     for k, v in hs:
         lines.append(f"{k}: {v}".encode("latin-1"))
     return b"\r\n".join(lines) + b"\r\n\r\n" + payload, hs
@@ -1036,6 +1065,14 @@ HEADER_SETS = [
     [("Host", "h"), ("X-A", ""), ("X-A", "")],
     [("Host", "h"), ("X-A", "  "), ("X-A", "2"), ("X-B", " "), ("Accept", ""), ("accept", "0")],
     [("Host", ""), ("Content-Type", ""), ("X-A", "0"), ("X-A", "")],
+    # underscore spellings of the two headers that have no HTTP_ prefix: dropped like every underscore name,
+    # before / after / without the real header
+    [("Host", "h"), ("Content_Length", "99"), ("Content_Type", "text/evil")],
+    [("Host", "h"), ("content_type", "text/evil"), ("Content-Type", "text/plain"), ("CONTENT_LENGTH", "0")],
+    [("Host", "h"), ("Content-Type", "text/plain"), ("CONTENT_TYPE", "text/evil"), ("~content_length", "1"),
+     ("~Content_Type", "x/y")],
+    [("Host", "h"), ("Content_length", "2"), ("~CONTENT_LENGTH", "7"), ("Transfer_Encoding", "chunked"),
+     ("HTTP_X", "1"), ("X-Under_Score", "u")],
 ]
 STATUSES = ["100 Continue", "200 OK", "204 No Content", "304 Not Modified", "404 Not Found",
             "500 Internal Server Error", "299 X", "199 Y", "205 Reset Content"]
